@@ -5,6 +5,18 @@ sys.path.insert(0, os.path.dirname(os.path.abspath(__file__)))
 VERIF = os.path.dirname(os.path.dirname(os.path.abspath(__file__)))
 
 CLAIMS = {
+ 'C01': dict(text='Lean theorems (Props/HeapMark, HeapSweep, HeapCollect, C01): for EVERY finite history of heap operations the client invariant holds (heap invariant incl. "no used cell refers to a cell that is not in use", handle counts = handles that exist), no operation panics, every cell reachable before an operation keeps its content through it — including allocations that trigger a collection, growth or shrinking —, everything reachable stays in use, and the tree a handle denotes never changes; the mark loop as written and the executable one both compute exactly the reachable set; sweep only permutes the vector. Tied to memory/mod.rs by comparing whole-heap snapshots cell by cell after every collection of random histories under forced collection schedules with poisoned swept cells, plus evaluator programs under forced collections with a handle audit.',
+             note='partial: Drop order of Memory fields and the evaluator\'s handle discipline are Rust-level (exercised, not proved)',
+             technique='Lean 4 proof (invariant by induction over operations; mark/sweep loop invariants) + whole-heap snapshot correspondence', ref='5/C01'),
+ 'C03': dict(text='Lean theorems (Props/C03 over the heap theorems): immediately after a collection exactly the reachable cells are in use (collect_exact) and the reported counts obey the configured free ratios; with nothing held nothing stays in use; one operation lengthens the vector at most to the configured growth of the reachable set (step_size); for EVERY history the heap is never larger than the initial capacity or the growth of the largest reachable set seen (run_size_bound). Tied to memory/mod.rs by snapshot comparison incl. long sawtooth histories, a Python reachability oracle on the real snapshots, and the handle audit after evaluator runs.',
+             note='partial: "no live handles besides globals when no evaluation is in progress" is Rust RAII in the evaluator: audited after every top-level evaluation, not proved; f32 ratios modelled as exact rationals',
+             technique='Lean 4 proof (exactness of collection, growth bound by induction over histories) + snapshot correspondence with reachability oracle', ref='5/C03'),
+ 'C04': dict(text='Lean theorems (Props/C04 over the heap theorems): interning puts a handle on a used symbol cell of exactly that name; while a symbol cell of a name is reachable — through a handle, a cons, a closure or a global — interning the name returns that very cell; different names give different cells at every point of every history; a generated symbol\'s cell was not reachable before, carries no name and is in no table entry, also when it is a reused cell; every symbol-table entry at every point of every history names a used symbol cell of exactly that name (no stale entry after reclamation). Tied to memory/mod.rs by symbol-heavy histories (snapshot incl. symbol table, symeq answers) under forced collections.',
+             note='trusted: Lean kernel; HashMap as finite map; the correspondence check',
+             technique='Lean 4 proof (symbol-table invariant through mark/sweep/allocate) + symbol-heavy snapshot correspondence', ref='5/C04'),
+ 'C20': dict(text='Differential: the real interpreter and the model evaluator both run the real debugger.lisp — (debug-eval (quote P) nil nil) detached and attached with answer sequences all STEP-IN / all STEP-OVER / pseudo-random, scripted through hook H3 and consumed exactly when the evaluator blocks in receive — and value / signal / output are compared with direct evaluation of P (the oracle) and, including the whole stream of debugger messages, with the model. Lean theorems (Props/C20.lean) cover what the stepping evaluator is built from: detached, receive answers nil and send is a no-op, so every step is a step over; make-function builds exactly the closures lambda builds; call-native-function applies a native exactly as the evaluator does; destructure-function returns exactly the components of a closure; with-current-module is the evaluator\'s global lookup.',
+             note='partial: the agreement of debug-eval with eval is established by differential execution, not by a theorem about debugger.lisp; known finding F22 (ill-formed programs, depth); three defects of the stepping evaluator on well-formed programs were repaired (F26-F28)',
+             technique='Lean 4 proof of the building blocks + five-way differential correspondence (real/model x debug-eval/eval x answer sequences)', ref='5/C20'),
  'C05': dict(text='Lean theorems (Props/C05.lean over Spec/RefEval.lean): a reference big-step semantics of the core language written from the property (operator first, operands left to right, first signal wins, closures capture environment and module of their creation, parameters bound over the CLOSURE\'s environment, exact arity unless a rest parameter takes the surplus, tail positions keep the depth) is deterministic, and the evaluator model realises EVERY derivation of it (eval_realises_reference): whatever value or signal the reference assigns, the evaluator computes. Tied to eval/mod.rs by differential execution of generated well- and ill-formed programs against the model and an independent Python reference evaluator.',
              note='trusted: Lean kernel; the reference semantics as the statement of the property; evaluator model tied by differential execution; the correspondence check',
              technique='Lean 4 refinement proof (induction on reference derivations) + three-way differential correspondence', ref='5/C05'),
